@@ -274,13 +274,6 @@ fn inflate_bytes(data: &[u8]) -> Result<Vec<u8>> {
 }
 
 pub fn flate_decode(data: &[u8], params: &LZWFlateParams) -> Result<Vec<u8>> {
-
-    let predictor = params.predictor as usize;
-    let n_components = params.n_components as usize;
-    let columns = params.columns as usize;
-    let stride = columns * n_components;
-
-
     // First flate decode
     let decoded = {
         if let Ok(data) = inflate_bytes_zlib(data) {
@@ -293,45 +286,63 @@ pub fn flate_decode(data: &[u8], params: &LZWFlateParams) -> Result<Vec<u8>> {
         }
     };
     // Then unfilter (PNG)
-    // For this, take the old out as input, and write output to out
+    unpredict(decoded, params)
+}
 
-    if predictor > 10 {
-        let inp = decoded; // input buffer
-        let rows = inp.len() / (stride+1);
-        
-        // output buffer
-        let mut out = vec![0; rows * stride];
-    
-        // Apply inverse predictor
-        let null_vec = vec![0; stride];
-        
-        let mut in_off = 0; // offset into input buffer
-        
-        let mut out_off = 0; // offset into output buffer
-        let mut last_out_off = 0; // last offset to output buffer
-        
-        while in_off + stride < inp.len() {
-            let predictor = PredictorType::from_u8(inp[in_off])?;
-            in_off += 1; // +1 because the first byte on each row is predictor
-            
-            let row_in = &inp[in_off .. in_off + stride];
-            let (prev_row, row_out) = if out_off == 0 {
-                (&null_vec[..], &mut out[out_off .. out_off+stride])
-            } else {
-                let (prev, curr) = out.split_at_mut(out_off);
-                (&prev[last_out_off ..], &mut curr[.. stride])
-            };
-            unfilter(predictor, n_components, prev_row, row_in, row_out);
-            
-            last_out_off = out_off;
-            
-            in_off += stride;
-            out_off += stride;
-        }
-        Ok(out)
-    } else {
-        Ok(decoded)
+/// Undo the PNG predictors (Predictor >= 10) of the LZW and Flate filters.
+fn unpredict(decoded: Vec<u8>, params: &LZWFlateParams) -> Result<Vec<u8>> {
+    if params.predictor < 10 {
+        return Ok(decoded);
     }
+    let geometry = |n: i32| usize::try_from(n).ok().filter(|&n| n > 0);
+    let (n_components, bits, columns) = match (geometry(params.n_components), geometry(params.bits_per_component), geometry(params.columns)) {
+        (Some(n), Some(b), Some(c)) => (n, b, c),
+        _ => bail!("invalid predictor parameters {:?}", params)
+    };
+    // bytes per complete pixel (at least one) and bytes per row
+    let bpp = n_components.checked_mul(bits).map(|n| (n + 7) / 8).ok_or(PdfError::Invalid)?;
+    let stride = n_components.checked_mul(bits)
+        .and_then(|n| n.checked_mul(columns))
+        .map(|n| (n + 7) / 8)
+        .ok_or(PdfError::Invalid)?;
+
+    let inp = decoded; // input buffer
+    if inp.len() <= stride {
+        // not even one row
+        return Ok(Vec::new());
+    }
+    let rows = inp.len() / (stride+1);
+
+    // output buffer
+    let mut out = vec![0; rows * stride];
+
+    // Apply inverse predictor
+    let null_vec = vec![0; stride];
+
+    let mut in_off = 0; // offset into input buffer
+
+    let mut out_off = 0; // offset into output buffer
+    let mut last_out_off = 0; // last offset to output buffer
+
+    while in_off + stride < inp.len() {
+        let predictor = PredictorType::from_u8(inp[in_off])?;
+        in_off += 1; // +1 because the first byte on each row is predictor
+
+        let row_in = &inp[in_off .. in_off + stride];
+        let (prev_row, row_out) = if out_off == 0 {
+            (&null_vec[..], &mut out[out_off .. out_off+stride])
+        } else {
+            let (prev, curr) = out.split_at_mut(out_off);
+            (&prev[last_out_off ..], &mut curr[.. stride])
+        };
+        unfilter(predictor, bpp, prev_row, row_in, row_out);
+
+        last_out_off = out_off;
+
+        in_off += stride;
+        out_off += stride;
+    }
+    Ok(out)
 }
 fn flate_encode(data: &[u8]) -> Vec<u8> {
     use libflate::zlib::Encoder;
@@ -360,7 +371,7 @@ pub fn lzw_decode(data: &[u8], params: &LZWFlateParams) -> Result<Vec<u8>> {
     decoder
         .into_stream(&mut out)
         .decode_all(data).status?;
-    Ok(out)
+    unpredict(out, params)
 }
 fn lzw_encode(data: &[u8], params: &LZWFlateParams) -> Result<Vec<u8>> {
     use weezl::{BitOrder, encode::Encoder};
